@@ -74,12 +74,22 @@ class AliasGenerator:
         # Pass discriminator metadata if this is a union type
         discriminator = schema.discriminator if hasattr(schema, "discriminator") else None
 
+        # The models the mapping refers to were emitted under their de-collided class name and module stem
+        mapping_targets: dict[str, tuple[str, str]] = {}
+        if discriminator is not None and discriminator.mapping:
+            for schema_ref in discriminator.mapping.values():
+                target_name = schema_ref.split("/")[-1]
+                target = self.all_schemas.get(target_name)
+                if target is not None and target.generation_name and target.final_module_stem:
+                    mapping_targets[target_name] = (target.generation_name, target.final_module_stem)
+
         rendered_code = self.renderer.render_alias(
             alias_name=alias_name,
             target_type=target_type,
             description=schema.description,
             context=context,
             discriminator=discriminator,
+            mapping_targets=mapping_targets,
         )
 
         # Post-condition
